@@ -309,7 +309,8 @@ class SSHConfig:
 
         if value_str.lower() != 'none':
             if option in self._options:
-                cast(List[str], self._options[option]).append(value_str)
+                self._options[option] = \
+                    cast(List[str], self._options[option]) + [value_str]
             else:
                 self._options[option] = [value_str]
         else:
@@ -331,7 +332,8 @@ class SSHConfig:
         """Append whitespace-separated string config options to a list"""
 
         if option in self._options:
-            cast(List[str], self._options[option]).extend(args)
+            self._options[option] = \
+                cast(List[str], self._options[option]) + args
         else:
             self._options[option] = args[:]
 
